@@ -373,14 +373,16 @@ class AntexParser(ChainParser):
 
             # Determine elevation list
             if cache["dzen"] != 0.0:
-                tmp["elevation"] = np.arange(
-                    90.0 - cache["zen1"], 90.0 - (cache["zen2"] + cache["dzen"]), -cache["dzen"]
-                )
+                # Number of zenith angles from integer arithmetic (np.arange with a float step like 0.1 may
+                # yield one element too many)
+                num_zen = int(round((cache["zen2"] - cache["zen1"]) / cache["dzen"])) + 1
+                tmp["elevation"] = 90.0 - (cache["zen1"] + cache["dzen"] * np.arange(num_zen))
                 tmp["elevation"] = np.radians(tmp["elevation"])
 
             # Determine azimuth list
             if cache["dazi"] != 0.0:
-                tmp["azimuth"] = np.arange(0, 360 + cache["dazi"], cache["dazi"])
+                num_azi = int(round(360.0 / cache["dazi"])) + 1
+                tmp["azimuth"] = cache["dazi"] * np.arange(num_azi)
                 tmp["azimuth"] = np.radians(tmp["azimuth"])
 
         # Save frequency dependent antenna corrections
